@@ -20,6 +20,8 @@ def tofrac(o):
             return Fraction(float(o))
         if isinstance(o, np.bool_):
             return Fraction(int(o))
+        if isinstance(o, np.ndarray) and o.ndim == 0:
+            return tofrac(o.item())
     except ImportError:  # pragma: no cover
         pass
     return None
